@@ -1954,100 +1954,66 @@ def replay_input(check, inp):
 
 
 # ---- known findings: executable predicates over (input, failure) ---------------------------------
-def _has_locktime_op_with_nonminimal_operand(script: bytes, flags: int) -> bool:
-    """CLTV/CSV (flag set) can meet an operand that is not its own minimal re-encoding only without MINIMALDATA"""
-    if flags & FL["MINIMALDATA"]:
+# A difference belongs to a listed finding exactly when it disappears once the ONE deviation the finding names is
+# neutralised in the running implementation (handlers wrapped in memory for the duration of one re-run; /repo is
+# not touched) — and the cheap static precondition of the finding holds.  Everything else the wrapped code does
+# still runs, so a second defect in the same handler is not hidden.
+class _Neutralise:
+    def __init__(self, lows=False):
+        self.lows = lows
+        self.saved = []
+
+    def __enter__(self):
+        from pycoin.satoshi import checksigops
+        if self.lows:
+            orig = checksigops.check_low_der_signature
+
+            def low(sig_pair, generator, orig=orig):
+                r, s_ = sig_pair
+                if r >= generator.order() or s_ >= generator.order():
+                    return                           # reference: an overflowed signature is the zero one, not "high"
+                return orig(sig_pair, generator)
+            self.saved.append((checksigops, "check_low_der_signature", orig))
+            checksigops.check_low_der_signature = low
+        return self
+
+    def __exit__(self, *a):
+        for obj, key, orig in reversed(self.saved):
+            if isinstance(obj, list):
+                obj[key] = orig
+            else:
+                setattr(obj, key, orig)
         return False
-    return ((flags & FL["CHECKLOCKTIMEVERIFY"]) and b"\xb1" in script) or ((flags & FL["CHECKSEQUENCEVERIFY"]) and b"\xb2" in script)
 
 
-def _sig_scalar_overflow(sig: bytes) -> bool:
-    """strict-DER signature whose r or s is not below the group order"""
-    if not is_strict_der(sig):
-        return False
-    lr = sig[3]
-    r = int.from_bytes(sig[4:4 + lr], "big")
-    ls = sig[5 + lr]
-    s_ = int.from_bytes(sig[6 + lr:6 + lr + ls], "big")
-    return r >= N_ORDER or s_ >= N_ORDER
+def _agrees_when(case, lows) -> bool:
+    ev = isinstance(case, EvalCase)
+    spec = (spec_eval if ev else spec_verify)([case])[0]
+    with _Neutralise(lows):
+        impl = impl_eval(case) if ev else impl_verify(case)
+    return _agree(spec, impl)
 
 
 def classify(pc, r):
-    if not isinstance(r, dict):
+    if not isinstance(r, dict) or pc.name not in ("eval", "spend") or r.get("kind") not in ("stack", "verdict"):
         return None
     inp = pc.inp
+    flags = inp["flags"]
     if pc.name == "eval":
         n_stack = sum(n for _h, n in inp["stack"]) if inp.get("compact") else len(inp["stack"])
         if n_stack > 1000 and r.get("impl", {}).get("detail") == "STACK_SIZE" and r.get("spec", {}).get("result") == "ok":
             return "initial-stack-over-1000"
-        script = _unrle(inp["script"]) if inp.get("compact") else bytes.fromhex(inp["script"])
-        if r.get("kind") in ("stack", "verdict") and _has_locktime_op_with_nonminimal_operand(script, inp["flags"]):
-            if _cltv_csv_reencode_explains(_eval_from_json(inp)):
-                return "cltv-csv-reencodes-operand"
-    if pc.name == "spend" and r.get("kind") == "verdict":
-        c = SpendCase.from_json(inp)
-        scripts = [c.script_pubkey, c.tx.vin[c.nin][2]] + list(c.tx.vin[c.nin][4])
-        if any(_has_locktime_op_with_nonminimal_operand(s_, c.flags) for s_ in scripts):
-            return "cltv-csv-reencodes-operand" if _spend_cltv_explains(c) else None
-    if r.get("kind") == "verdict" and (inp["flags"] & FL["LOW_S"]) and r.get("impl", {}).get("detail") == "SIG_HIGH_S" \
-            and r.get("spec", {}).get("result") == "ok":
-        if any(_sig_scalar_overflow(bytes.fromhex(h)) for h in r.get("sigs", [])):
+        case = _eval_from_json(inp)
+    else:
+        case = SpendCase.from_json(inp)
+    # static preconditions
+    can_lows = bool(flags & FL["LOW_S"]) and r.get("impl", {}).get("detail") == "SIG_HIGH_S"
+    try:
+        if can_lows and _agrees_when(case, True):
             return "low-s-overflowed-scalar"
+    except Exception:
+        return None
     return None
-
-
-def _strip_to_minimal_after_locktime(c: EvalCase):
-    """would the spec agree with pycoin if the operand under CLTV/CSV had been minimal to begin with?  Used only to
-    decide whether a difference is the known re-encoding defect: rerun the implementation's result against the
-    spec's stack with every item that pycoin re-encoded compared by VALUE."""
-    return None
-
-
-def _num_value(b: bytes):
-    if len(b) == 0:
-        return 0
-    v = int.from_bytes(b[:-1] + bytes([b[-1] & 0x7F]), "little")
-    return -v if b[-1] & 0x80 else v
-
-
-def _cltv_csv_reencode_explains(c: EvalCase) -> bool:
-    """the stacks differ only in items that are different encodings of the same number, or the verdicts differ
-    after such an item was produced: checked by running the spec on the script with MINIMALDATA-free flags and
-    comparing stacks by numeric value"""
-    spec = spec_eval([c])[0]
-    impl = impl_eval(c)
-    if spec[0] == "ok" and impl[0] == "ok" and len(spec[1]) == len(impl[1]):
-        return all(a == b or (len(a) <= 5 and len(b) <= 5 and _num_value(a) == _num_value(b)) for a, b in zip(spec[1], impl[1]))
-    # verdict differences: accept when the script, cut right after its first CLTV/CSV, shows the re-encoding
-    for i, op in enumerate(c.script):
-        if op in (0xB1, 0xB2):
-            cut = EvalCase(c.flags, c.sv, c.script[:i + 1], c.stack, c.tx, c.nin, c.amount)
-            s2, i2 = spec_eval([cut])[0], impl_eval(cut)
-            if s2[0] == "ok" and i2[0] == "ok" and s2[1] != i2[1]:
-                return True
-    return False
-
-
-def _spend_cltv_explains(c: SpendCase) -> bool:
-    # evaluate scriptSig then scriptPubKey as single scripts and look for the re-encoding there
-    ssig = c.tx.vin[c.nin][2]
-    st = spec_eval([EvalCase(c.flags, "B", ssig, [], c.tx, c.nin, c.amount)])[0]
-    if st[0] != "ok":
-        return False
-    return _cltv_csv_reencode_explains(EvalCase(c.flags, "B", c.script_pubkey, st[1], c.tx, c.nin, c.amount))
-
-
-def _replay_cltv():
-    # 01 00 CLTV SIZE 1 EQUAL : the non-minimal zero must stay one byte long
-    tx = SynTx(1, [[b"\x11" * 32, 0, b"", 0, []]], [[0, b""]], 10)
-    c = EvalCase(FL["CHECKLOCKTIMEVERIFY"], "B", bytes.fromhex("0100b1"), [], tx, 0, 0)
-    return chk_eval(c)
-
-
-def _replay_cltv_verdict():
-    tx = SynTx(1, [[b"\x11" * 32, 0, b"\x01\x00", 0, []]], [[0, b""]], 10)
-    c = SpendCase(FL["CHECKLOCKTIMEVERIFY"], tx, 0, bytes.fromhex("b1825187"), 0)    # CLTV SIZE 1 EQUAL
-    return chk_spend(c)
 
 
 def _replay_initial_stack():
@@ -2073,7 +2039,6 @@ def _replay_lax():
 
 
 KNOWN_REPLAYS = {
-    "cltv-csv-reencodes-operand": lambda: _replay_cltv() or _replay_cltv_verdict(),
     "initial-stack-over-1000": _replay_initial_stack,
     "low-s-overflowed-scalar": _replay_low_s,
     "lax-der-parser": _replay_lax,
